@@ -57,6 +57,7 @@ def plan(tier):
     fam = c12.family('quick')
     units += [('props', tier, fam[k::24]) for k in range(24)]
     units += [('matrix', tier, k, 16) for k in range(16)]
+    units.append(('sharing', tier))
     return units
 
 
@@ -103,6 +104,11 @@ def transitions(obj, join_preds):
             out.append(('refactor_reference(A)', lambda: list(R.refactor_reference(obj, 'A'))))
         out.append(('replace_this_with_var(Z)', lambda: [R.replace_this_with_var(obj, 'Z')]))
         out.append(('replace_var_with_this(A)', lambda: [R.replace_var_with_this(obj, 'A')]))
+        # one untyped object placed in every position of the variable (the API shares it)
+        import hpl.ast as A
+
+        out.append(('replace_var_reference(k -> @w)', lambda: [obj.replace_var_reference('k', A.HplVarReference('@w'))]))
+        out.append(('replace_var_reference(k -> m.f)', lambda: [obj.replace_var_reference('k', A.HplFieldAccess(A.HplFieldAccess(A.HplThisMessage(), 'm'), 'f'))]))
     if k == 'pred':
         out.append(('negate', lambda: [obj.negate()]))
         for i, q in enumerate(join_preds):
@@ -190,6 +196,24 @@ def run(unit):
             r.count('validated')
             if i % 997 == 0:
                 r.sample({'initial': text})
+    elif what == 'sharing':
+        # predicates in which one variable occurs in positions of different strictness (=, set element, index,
+        # arithmetic, function argument, quantifier domain bound): replacing it puts ONE object in all of them
+        texts = [
+            '(@k = @j) and xs[@k] > 0', 'xs[@k] > 0 and (@k = @j)', '@k in {@j} and xs[@k] = y', '@k = @j and abs(@k) > 0', 'abs(@k) > 0 and @k != @j',
+            '@k = y and (@k + 1 > 0)', '(@k + 1 > 0) and @k = y', 'x in [0 to @k] and @k = @j', '@k = @j and (forall i in [0 to @k]: @i > 0)',
+            'bool(@k) and @k > 0', '@k > 0 and str(@k) = s', '{@k, @j} = {1} or @k = @j', 'len({@k}) > 0 and -@k < 0',
+        ]
+        for text in texts:
+            r.count('evaluations')
+            for kind in ('expr', 'pred'):
+                st, obj = impl.try_parse(kind, text if kind == 'expr' else '{ ' + text + ' }')
+                if st != 'ok':
+                    r.notes['sharing rejected:' + st] += 1
+                    continue
+                explore(obj, f'parse_{"expression" if kind == "expr" else "predicate"}({text if kind == "expr" else "{ " + text + " }"})', r, 2, seen)
+            r.count('validated')
+        r.sample({'initial': texts[0]})
     elif what == 'matrix':
         from hplmc import sigmatrix
 
@@ -235,7 +259,7 @@ def replay(w):
 def describe(tier):
     b = bounds(tier)
     return {
-        'rule': f"initial states: parser results for every Bool/Num/Str term with <= {b['nodes']} nodes (fields, alias fields, literals, 4 arithmetic / 4 comparison / 4 logical operators, abs len sum max min gcd bool str, sets, ranges, indexing, inclusion, both quantifiers) as expression and predicate, the C12 property family, and the signature matrix (every operator and built-in function with every valid argument shape; depth 1); transitions: simplify, split_and elements, refactor_reference halves, both replacements, negate, join with 6 predicates, canonical_form outputs; BFS to depth {b['depth']} with states deduplicated on the typed lift; the per-node invariant is evaluated in every state.",
+        'rule': f"initial states: parser results for every Bool/Num/Str term with <= {b['nodes']} nodes (fields, alias fields, literals, 4 arithmetic / 4 comparison / 4 logical operators, abs len sum max min gcd bool str, sets, ranges, indexing, inclusion, both quantifiers) as expression and predicate, the C12 property family, the signature matrix (every operator and built-in function with every valid argument shape; depth 1), and a 13-text family in which one variable occurs in positions of different strictness; transitions: simplify, split_and elements, refactor_reference halves, both replacements, replace_var_reference with one shared untyped object (a variable / a field chain), negate, join with 6 predicates, canonical_form outputs; BFS to depth {b['depth']} with states deduplicated on the typed lift; the per-node invariant is evaluated in every state.",
         'bounds': b,
         'exhaustive': True,
         'assumptions': ['invariant table in hplmc/ref/types.py is the reference; bound-variable use is checked with the weakest reading (non-empty intersection with the element type)'],
